@@ -3,11 +3,12 @@ import Qfx.Drv.Util
 import Qfx.Drv.Val
 import Qfx.Drv.ValMon
 import Qfx.Drv.Sched
+import Qfx.Drv.SchedMon
 namespace Qfx.Drv
 
 def families : List (String × Family) :=
   [ ("val", valFamily), ("val-mon", valMonFamily)
-  , ("sched", schedFamily)
+  , ("sched", schedFamily), ("sched-mon", schedMonFamily)
   ]
 
 end Qfx.Drv
